@@ -6,6 +6,7 @@ import (
 	"encoding/json"
 	"fmt"
 	"io"
+	"strings"
 	"testing"
 	"testing/iotest"
 
@@ -272,6 +273,16 @@ var account = &core.Check{Name: "c17/account", Quick: 20000, Thorough: 2000000, 
 			var viaJSON ton.AccountID
 			if err := json.Unmarshal([]byte(`"`+human+`"`), &viaJSON); err != nil || viaJSON != id {
 				return fmt.Errorf("%s as a JSON string parses to %s, %v; want %s", what, viaJSON.ToRaw(), err, raw)
+			}
+			// a JSON string is its text, however the producer spelled it: escaped solidus (the default of
+			// several encoders, and '/' is a letter of the standard alphabet), \u escapes, blanks around
+			for _, text := range []string{human, addrref.Base64(wantBytes, false), raw} {
+				for k, doc := range jsonSpellings(text) {
+					var got ton.AccountID
+					if err := json.Unmarshal([]byte(doc), &got); err != nil || got != id {
+						return fmt.Errorf("%s: the JSON document %s (spelling %d of the string %q) parses to %s, %v; want %s", what, doc, k, text, got.ToRaw(), err, raw)
+					}
+				}
 			}
 		}
 	}
@@ -734,4 +745,18 @@ func TestEnum(t *testing.T) {
 
 func TestReplay(t *testing.T) {
 	core.Replay(t, account, substitute, anycast, shard, adnl, concurrentCheck)
+}
+
+// jsonSpellings returns JSON documents that all denote the string text.
+func jsonSpellings(text string) []string {
+	var all strings.Builder
+	for _, r := range text {
+		fmt.Fprintf(&all, "\\u%04x", r)
+	}
+	return []string{
+		`"` + strings.ReplaceAll(text, "/", `\/`) + `"`,
+		`"` + all.String() + `"`,
+		" \n\t\"" + text + "\" \n",
+		`"` + strings.ReplaceAll(strings.ReplaceAll(text, "-", `\u002d`), "+", `\u002B`) + `"`,
+	}
 }
